@@ -1,9 +1,320 @@
 package main
 
 import (
+	"fmt"
+	"go/token"
+	"go/types"
+	"strings"
+
 	"golang.org/x/tools/go/ssa"
 )
 
+// protect / monotone declarations (package level):
+//
+//   //@ protect [C04,C06] List.elems, List.elems[*] : !owner.frozen && owner.itercount == 0
+//   //@ monotone [C04] List.frozen : true
+//
+// protect: at every store in the module whose address is the named field (or
+// an element of the slice loaded from it) of an object that existed when the
+// function was entered, the guard must hold. monotone: the only value ever
+// stored into the field is the given constant.
+
+type protectDecl struct {
+	typ    string // struct type name, package-local
+	pkg    string
+	field  string
+	elems  bool
+	guard  string
+	props  []string
+	pos    string
+	mono   bool
+	direct bool // "direct" protect: also applies to fresh objects
+}
+
+func (g *Global) parseProtects() {
+	for _, d := range g.cs.Decls {
+		if d.Kind != "protect" && d.Kind != "monotone" {
+			continue
+		}
+		i := strings.Index(d.Text, " : ")
+		if i < 0 {
+			continue
+		}
+		targets, guard := d.Text[:i], strings.TrimSpace(d.Text[i+3:])
+		for _, t := range strings.Split(targets, ",") {
+			t = strings.TrimSpace(t)
+			if t == "" {
+				continue
+			}
+			pd := protectDecl{pkg: d.Pkg, guard: guard, props: d.Props, pos: d.Pos, mono: d.Kind == "monotone"}
+			if strings.HasSuffix(t, "[*]") {
+				pd.elems = true
+				t = strings.TrimSuffix(t, "[*]")
+			}
+			if strings.HasPrefix(t, "$mem:") {
+				pd.typ, pd.field = t, ""
+				g.protects = append(g.protects, pd)
+				continue
+			}
+			j := strings.Index(t, ".")
+			if j < 0 {
+				continue
+			}
+			pd.typ, pd.field = t[:j], t[j+1:]
+			g.protects = append(g.protects, pd)
+		}
+	}
+}
+
+func (g *Global) protectsFor(st types.Type, field string, elems bool) []protectDecl {
+	n, ok := st.(*types.Named)
+	if !ok || n.Obj().Pkg() == nil {
+		return nil
+	}
+	var out []protectDecl
+	for _, p := range g.protects {
+		if p.pkg == n.Obj().Pkg().Path() && p.typ == n.Obj().Name() && p.field == field && p.elems == elems {
+			out = append(out, p)
+		}
+	}
+	return out
+}
+
+// fieldOrigin: if v is the address of field f of struct pointer X, return (X, T, f).
+func fieldOrigin(v ssa.Value) (ssa.Value, types.Type, string, bool) {
+	fa, ok := v.(*ssa.FieldAddr)
+	if !ok {
+		return nil, nil, "", false
+	}
+	st := fa.X.Type().Underlying().(*types.Pointer).Elem()
+	stru := st.Underlying().(*types.Struct)
+	return fa.X, st, stru.Field(fa.Field).Name(), true
+}
+
+// sliceOrigin traces a slice value back to the load of a struct field.
+func sliceOrigin(v ssa.Value) (ssa.Value, types.Type, string, bool) {
+	return sliceOrigin1(v, map[ssa.Value]bool{})
+}
+
+func sliceOrigin1(v ssa.Value, seen map[ssa.Value]bool) (ssa.Value, types.Type, string, bool) {
+	for depth := 0; depth < 8; depth++ {
+		if seen[v] {
+			return nil, nil, "", false
+		}
+		seen[v] = true
+		switch x := v.(type) {
+		case *ssa.Slice:
+			v = x.X
+		case *ssa.ChangeType:
+			v = x.X
+		case *ssa.UnOp:
+			if x.Op != token.MUL {
+				return nil, nil, "", false
+			}
+			return fieldOrigin(x.X)
+		case *ssa.Phi:
+			// all edges must agree on the origin
+			var ow ssa.Value
+			var ot types.Type
+			var of string
+			for i, e := range x.Edges {
+				if seen[e] {
+					continue
+				}
+				o, t, f, ok := sliceOrigin1(e, seen)
+				if !ok {
+					return nil, nil, "", false
+				}
+				_ = i
+				if ow == nil {
+					ow, ot, of = o, t, f
+				} else if o != ow || f != of {
+					return nil, nil, "", false
+				}
+			}
+			return ow, ot, of, ow != nil
+		default:
+			return nil, nil, "", false
+		}
+	}
+	return nil, nil, "", false
+}
+
+func (c *fnCtx) protectGoal(st *State, owner ssa.Value, pd protectDecl) (string, error) {
+	ov := c.val(st, owner)
+	env := c.newEnv(st, c.entry)
+	env.calleePkg = pd.pkg
+	env.vars["owner"] = ov
+	g, err := env.evalBool(pd.guard)
+	if err != nil {
+		return "", err
+	}
+	// objects allocated in this activation are not yet shared: exempt
+	return sOr(app(">", app("rootid", ov.S), "top!0"), g), nil
+}
+
 // protectStore emits frame obligations for stores into protected fields.
 func (c *fnCtx) protectStore(st *State, in *ssa.Store) {
+	if len(c.g.protects) == 0 {
+		return
+	}
+	// direct field store
+	if owner, stt, f, ok := fieldOrigin(in.Addr); ok && !c.g.escField[typeKey(stt)+"."+f] {
+		for _, pd := range c.g.protectsFor(stt, f, false) {
+			if pd.mono {
+				v := c.val(st, in.Val)
+				env := c.newEnv(st, c.entry)
+				env.vars["value"] = v
+				env.vars["owner"] = c.val(st, owner)
+				g, err := env.evalBool(pd.guard)
+				if err != nil {
+					c.note("monotone %s: %v", pd.pos, err)
+					continue
+				}
+				c.oblige(st, "monotone:"+pd.typ+"."+pd.field, g, "only "+pd.guard+" is stored into "+pd.typ+"."+pd.field, pd.props, in.Pos())
+				continue
+			}
+			g, err := c.protectGoal(st, owner, pd)
+			if err != nil {
+				c.note("protect %s: %v", pd.pos, err)
+				continue
+			}
+			c.oblige(st, "frame:"+pd.typ+"."+pd.field, g, "store to "+pd.typ+"."+pd.field+" requires "+pd.guard, pd.props, in.Pos())
+		}
+		return
+	}
+	// component-level protects ($mem:T): any store landing in that component
+	for _, comp := range c.staticStoreComps(in.Addr) {
+		for _, pd := range c.g.protects {
+			if pd.typ != comp {
+				continue
+			}
+			env := c.newEnv(st, c.entry)
+			env.calleePkg = pd.pkg
+			g, err := env.evalBool(pd.guard)
+			if err != nil {
+				c.oblige(st, "frame:"+comp, "false", "store to "+comp+" outside a context where the guard can be stated: "+err.Error(), pd.props, in.Pos())
+				continue
+			}
+			if rootsAtLocalAlloc(in.Addr) {
+				continue
+			}
+			c.oblige(st, "frame:"+comp, g, "store to "+comp+" requires "+pd.guard, pd.props, in.Pos())
+		}
+	}
+	// element store
+	if ia, ok := in.Addr.(*ssa.IndexAddr); ok {
+		if owner, stt, f, ok := sliceOrigin(ia.X); ok {
+			for _, pd := range c.g.protectsFor(stt, f, true) {
+				g, err := c.protectGoal(st, owner, pd)
+				if err != nil {
+					c.note("protect %s: %v", pd.pos, err)
+					continue
+				}
+				c.oblige(st, "frame:"+pd.typ+"."+pd.field+"[]", g, "store to an element of "+pd.typ+"."+pd.field+" requires "+pd.guard, pd.props, in.Pos())
+			}
+		}
+	}
+}
+
+// protectCall: builtins (append/copy/clear) and callees that may write the
+// elements of a protected slice passed to them.
+func (c *fnCtx) protectCall(st *State, cc *ssa.CallCommon, pos token.Pos) {
+	if len(c.g.protects) == 0 {
+		return
+	}
+	check := func(arg ssa.Value, what string) {
+		if _, isSl := arg.Type().Underlying().(*types.Slice); !isSl {
+			return
+		}
+		owner, stt, f, ok := sliceOrigin(arg)
+		if !ok {
+			return
+		}
+		for _, pd := range c.g.protectsFor(stt, f, true) {
+			g, err := c.protectGoal(st, owner, pd)
+			if err != nil {
+				c.note("protect %s: %v", pd.pos, err)
+				continue
+			}
+			c.oblige(st, "frame:"+pd.typ+"."+pd.field+"[]", g, what+" may write elements of "+pd.typ+"."+pd.field+": requires "+pd.guard, pd.props, pos)
+		}
+	}
+	if b, ok := cc.Value.(*ssa.Builtin); ok {
+		switch b.Name() {
+		case "append", "copy", "clear":
+			if len(cc.Args) > 0 {
+				check(cc.Args[0], b.Name())
+			}
+		}
+		return
+	}
+	// other callees: only if they may modify the element component
+	var elemArgs []ssa.Value
+	for _, a := range cc.Args {
+		if _, isSl := a.Type().Underlying().(*types.Slice); isSl {
+			if _, _, _, ok := sliceOrigin(a); ok {
+				elemArgs = append(elemArgs, a)
+			}
+		}
+	}
+	if len(elemArgs) == 0 {
+		return
+	}
+	mods, all := c.callMods(cc)
+	for _, a := range elemArgs {
+		et := elemType(a.Type())
+		hit := all
+		for _, l := range c.leafLocs("nil", et) {
+			for _, m := range mods {
+				if m == l.comp {
+					hit = true
+				}
+			}
+		}
+		if hit {
+			check(a, fmt.Sprintf("call at %s", c.posStr(pos)))
+		}
+	}
+}
+
+// touchesProtected reports whether fn contains an instruction that protect /
+// monotone declarations apply to (cheap syntactic pre-filter).
+func (g *Global) touchesProtected(fn *ssa.Function) bool {
+	if len(g.protects) == 0 {
+		return false
+	}
+	for _, b := range fn.Blocks {
+		for _, in := range b.Instrs {
+			switch in := in.(type) {
+			case *ssa.Store:
+				for _, comp := range g.storeComps(in.Addr) {
+					for _, pd := range g.protects {
+						if pd.typ == comp && !rootsAtLocalAlloc(in.Addr) {
+							return true
+						}
+					}
+				}
+				if _, stt, f, ok := fieldOrigin(in.Addr); ok {
+					if len(g.protectsFor(stt, f, false)) > 0 {
+						return true
+					}
+				}
+				if ia, ok := in.Addr.(*ssa.IndexAddr); ok {
+					if _, stt, f, ok := sliceOrigin(ia.X); ok && len(g.protectsFor(stt, f, true)) > 0 {
+						return true
+					}
+				}
+			case ssa.CallInstruction:
+				for _, a := range in.Common().Args {
+					if _, isSl := a.Type().Underlying().(*types.Slice); isSl {
+						if _, stt, f, ok := sliceOrigin(a); ok && len(g.protectsFor(stt, f, true)) > 0 {
+							return true
+						}
+					}
+				}
+			}
+		}
+	}
+	return false
 }
